@@ -265,9 +265,15 @@ func TestC09Wire(t *testing.T) {
 		ev.Eval(1)
 		var cal *string
 		m, d := client.VerifConsts().DefaultMultiplier, client.VerifConsts().DefaultDivider
-		if rapid.IntRange(0, 2).Draw(t, "cal") == 0 {
+		switch rapid.IntRange(0, 5).Draw(t, "cal") {
+		case 0, 1:
 			s := "-2\n1\n"
 			cal, m, d = &s, -2, 1
+		case 2:
+			// a ratio so small that ordinary readings scale to 0 and 1 (values the
+			// server ignores; 0 is also what the history keeps for "no reading")
+			s := "1\n1000\n"
+			cal, m, d = &s, 1, 1000
 		}
 		wideClass := rapid.IntRange(0, 19).Draw(t, "wideValueClass") == 0 // readings beyond 32 signed bits
 		if wideClass && !isKnown("KF-C09-1") {
